@@ -2,6 +2,7 @@ package c09
 
 import (
 	"fmt"
+	"regexp"
 	"sort"
 	"strings"
 )
@@ -290,4 +291,94 @@ func exitBodyNames(thorough bool, seed uint64) []string {
 		}
 	}
 	return names
+}
+
+// ---------------------------------------------------------------------------------------------
+// Naming: how long the identifiers are and which module holds the callables
+// ---------------------------------------------------------------------------------------------
+
+// The limits are a matter of counts, not of what the things counted are called. The naming
+// dimension re-runs the limit families with function names of a given length and with the
+// callables placed in the entry module "main", in an entry module with a long name, or in an
+// imported module with a long name (the names of the functions on the call stack, as
+// `@<module>.<function>`, are what a back end renders when it reports a fatal interrupt).
+
+// Module placements of the naming dimension.
+const (
+	modMain   = ""       // everything in the entry module "main"
+	modEntry  = "entry"  // everything in an entry module whose name has ModLen characters
+	modImport = "import" // all functions except main in an imported module whose name has ModLen characters
+)
+
+const identAlphabet = "abcdefghijklmnopqrstuvwxyz_0123456789ABCDEFGHIJKLMNOPQRSTUVWXYZ"
+
+// longIdent pads base with a fixed pattern to exactly n characters (base itself if it is longer).
+func longIdent(base string, n int) string {
+	if len(base) >= n {
+		return base
+	}
+	var sb strings.Builder
+	sb.WriteString(base)
+	sb.WriteByte('_')
+	for i := 0; sb.Len() < n; i++ {
+		sb.WriteByte(identAlphabet[(i*7+len(base))%len(identAlphabet)])
+	}
+	return sb.String()
+}
+
+var topFnRe = regexp.MustCompile(`(?m)^fn ([A-Za-z_][A-Za-z0-9_]*)\(`)
+
+// topFunctions lists the top-level functions of a family program other than main, in source order.
+func topFunctions(src string) []string {
+	var names []string
+	for _, m := range topFnRe.FindAllStringSubmatch(src, -1) {
+		if m[1] != "main" {
+			names = append(names, m[1])
+		}
+	}
+	return names
+}
+
+// applyNaming renames the top-level functions of a family program to nameLen characters
+// (0 = keep) and places them as the placement says. It returns the sources and the entry module.
+// ok is false when the placement is not applicable (no function to move into another module).
+func applyNaming(src string, nameLen int, mod string, modLen int) (out map[string]string, entry string, ok bool) {
+	fns := topFunctions(src)
+	if nameLen > 0 {
+		for _, f := range fns {
+			src = regexp.MustCompile(`\b`+regexp.QuoteMeta(f)+`\b`).ReplaceAllString(src, longIdent(f, nameLen))
+		}
+		fns = topFunctions(src)
+	}
+	switch mod {
+	case modMain:
+		return map[string]string{"main": src}, "main", true
+	case modEntry:
+		entry = longIdent("entry", modLen)
+		return map[string]string{entry: src}, entry, true
+	case modImport:
+		at := strings.Index(src, "fn main()")
+		if len(fns) == 0 || at <= 0 || (at > 0 && src[at-1] != '\n') {
+			return nil, "", false
+		}
+		lib := longIdent("lib", modLen)
+		return map[string]string{
+			// (the analyzer wants a main function in every module)
+			lib:    topFnRe.ReplaceAllString(src[:at], "pub fn $1(") + "fn main() { }\n",
+			"main": "import { " + strings.Join(fns, ", ") + " } from " + lib + ";\n" + src[at:],
+		}, "main", true
+	}
+	panic("c09: unknown module placement " + mod)
+}
+
+// namingFamilies: the limit families the naming dimension is applied to, with the limit that the
+// family's parameter works against ("c" call depth, "s" operand stack, "m" memory).
+var namingFamilies = []struct {
+	family string
+	limit  byte
+	locals int // locals family: locals per frame
+}{
+	{"rec", 'c', 0}, {"rec-val", 'c', 0}, {"rec-mutual", 'c', 0}, {"rec-arg", 'c', 0}, {"rec-try", 'c', 0}, {"rec-lambda", 'c', 0},
+	{"nest-sum", 's', 0}, {"nest-args", 's', 0}, {"nest-list", 's', 0},
+	{"locals", 'm', 3}, {"locals", 'c', 1},
 }
